@@ -31,9 +31,35 @@ MA_PLANS = [  # (domain, problem, sequential plan, agent names)
     ("multi_agent_tests/depots_domain.pddl", "multi_agent_tests/depots_problem.pddl", "multi_agent_tests/depots_plan.txt", None),
 ]
 
+WW_AGENTS = ["glazer0", "grinder0", "highspeed-saw0", "immersion-varnisher0", "planer0", "saw0", "spray-varnisher0"]
 TRAJECTORIES = [  # (domain, problem or None, trajectory, executing agents or None)
-    ("lisp_parsers_tests/test_domain_format_file.pddl", None, "lisp_parsers_tests/test_numeric_trajectory", None),
+    ("lisp_parsers_tests/depot_numeric.pddl", "lisp_parsers_tests/pfile2.pddl", "lisp_parsers_tests/test_numeric_trajectory", None),
+    ("lisp_parsers_tests/farmland.pddl", "lisp_parsers_tests/pfile10_10.pddl", "lisp_parsers_tests/pfile10_10.trajectory", None),
+    ("lisp_parsers_tests/woodworking_combined_domain.pddl", "lisp_parsers_tests/woodworking_combined_problem.pddl",
+     "lisp_parsers_tests/ma_woodworking_trajectory.trajectory", WW_AGENTS),
+    ("lisp_parsers_tests/logistics_combined_domain.pddl", "lisp_parsers_tests/pfile_probLOGISTICS-14-0.pddl",
+     "lisp_parsers_tests/ma_logistics_trajectory.trajectory", ["apn1", "apn2", "tru1", "tru2", "tru3", "tru4", "tru5"]),
+    ("lisp_parsers_tests/Depots.pddl", "lisp_parsers_tests/pfile1_depot.pddl",
+     "lisp_parsers_tests/test_joint_trajectory_with_potential_bug",
+     ["depot0", "distributor0", "distributor1", "distributor2", "distributor3", "truck0", "truck1", "truck2", "truck3"]),
+    ("lisp_parsers_tests/starcraft_domain.pddl", None, "lisp_parsers_tests/starcraft_trajectory.trajectory",
+     ["agent0", "agent1", "agent2", "agent3", "agent4"]),
 ]
+
+
+def load_trajectory(i):
+    key = ("traj", i, repo())
+    if key in _cache:
+        return _cache[key]
+    d, p, t, agents = TRAJECTORIES[i]
+    out = {"name": t, "dom_text": _read(d), "prob_text": _read(p) if p else None, "traj_text": _read(t), "agents": agents}
+    try:
+        states, steps = pddl_reader.read_trajectory_tree(sexpr.read_one(out["traj_text"]))
+        out["states"], out["steps"] = states, steps
+    except Exception as e:
+        out["unsupported"] = f"{type(e).__name__}: {e}"
+    _cache[key] = out
+    return out
 
 
 def load_single(i):
